@@ -16,7 +16,7 @@ from __future__ import annotations
 import ast
 import re
 
-from ..core import (AnalysisError, Report, call_name, find_class, find_func, need, norm, short)
+from ..core import (AnalysisError, Report, call_name, find_class, find_func, need, norm, short, subst_locals)
 from ..index import Index
 from ..templates import TemplateSet, collect_tags
 from .c07 import read_registry
@@ -266,7 +266,7 @@ def r09_3(rep: Report) -> None:
     for n in ast.walk(init):
         if isinstance(n, ast.Call) and call_name(n) == 'flask.url_for' and n.args \
                 and norm(n.args[0]) == "'mpd-patch'":
-            kw = {k.arg: norm(k.value) for k in n.keywords}
+            kw = {k.arg: norm(subst_locals(init, k.value, allow_calls=True)) for k in n.keywords}
     c2 = f'{MC}::ManifestContext.__init__'
     if kw and kw.get('publish') == 'int(timing.publishTime.timestamp())':
         rep.ok(rid, c2, 'publish = int(publishTime.timestamp())')
